@@ -17,6 +17,7 @@ import (
 	"runtime"
 	"runtime/debug"
 	"sort"
+	"strconv"
 	"strings"
 	"sync"
 
@@ -43,6 +44,7 @@ type dumper struct {
 	globals   map[*dataflow.GlobalNode]int
 	b         strings.Builder
 	kinds     map[string]int
+	orphans   []string
 }
 
 func (d *dumper) node(n dataflow.GraphNode) int {
@@ -141,6 +143,10 @@ func dump(id string, st *dataflow.AnalyzerState) (string, map[string]int) {
 		for _, callees := range g.Callees {
 			for _, cn := range callees {
 				inCallees[cn] = true
+				if cn.Graph() == g {
+					// node ownership (Model/SGraphConv.lean Owned): the call node is a node of its own summary
+					fmt.Fprintf(&d.b, "owncall\t%d\n", d.node(cn))
+				}
 				linked(cn)
 				push(cn.CalleeSummary)
 			}
@@ -157,6 +163,9 @@ func dump(id string, st *dataflow.AnalyzerState) (string, map[string]int) {
 		}
 		for _, cl := range g.CreatedClosures {
 			cid := d.node(cl)
+			if cl.Graph() == g {
+				fmt.Fprintf(&d.b, "ownclosure\t%d\n", cid)
+			}
 			if cl.Instr() != nil {
 				fmt.Fprintf(&d.b, "cinstr\t%d\t%d\n", cid, d.instr(cl.Instr()))
 			}
@@ -192,6 +201,23 @@ func dump(id string, st *dataflow.AnalyzerState) (string, map[string]int) {
 			// registered as a call site of its callee, but no longer a node of its own summary
 			// (PopulateGraphFromSummary resets Callees of a summary whose call nodes were already linked)
 			d.kinds["orphan-registered-call-node"]++
+			if par := cn.Graph(); par == nil || !par.IsPreSummarized {
+				d.kinds["orphan-registered-call-node:caller-not-pre-summarized"]++
+			}
+			{
+				par := cn.Graph()
+				pn, pre, cons, cal := "?", false, false, "?"
+				if par != nil {
+					pre, cons = par.IsPreSummarized, par.Constructed
+					if par.Parent != nil {
+						pn = par.Parent.String()
+					}
+				}
+				if cn.CalleeSummary != nil && cn.CalleeSummary.Parent != nil {
+					cal = cn.CalleeSummary.Parent.String()
+				}
+				d.orphans = append(d.orphans, fmt.Sprintf("%s (pre-summarized=%v constructed=%v) calls %s at %s", pn, pre, cons, cal, cn.CallSite().String()))
+			}
 		}
 	}
 	// edges of every node discovered (following out / in maps to nodes not enumerated above)
@@ -222,14 +248,19 @@ func dump(id string, st *dataflow.AnalyzerState) (string, map[string]int) {
 		}
 	}
 	d.b.WriteString("end\n")
+	lastOrphans = d.orphans
 	return d.b.String(), d.kinds
 }
+
+// descriptions of the orphan registrations of the last dumped graph (single-threaded use)
+var lastOrphans []string
 
 // ---- real pipelines with observation points ----------------------------------------------------
 
 type observer struct {
 	name      string
 	snaps     []string // serialised graphs
+	orphans   [][]string // per snapshot: the orphan registrations (who calls whom)
 	ids       []string
 	kinds     map[string]int
 	st        *dataflow.AnalyzerState
@@ -249,6 +280,7 @@ func (o *observer) snap(tag string) {
 	}
 	id := fmt.Sprintf("%s#%d:%s", o.name, len(o.snaps), tag)
 	s, kinds := dump(id, o.st)
+	o.orphans = append(o.orphans, lastOrphans)
 	if strings.Count(s, "\nout\t") > 3500 && o.maxSnaps > 5 {
 		// a large graph: keep the eager, linked and final observation points (+ two in between)
 		o.maxSnaps = 5
@@ -494,6 +526,16 @@ func main() {
 	inputs = append(inputs, input{name: "corpus/F10_two_results_one_argument", dir: cdir, yaml: taintYAML(false), replay: f10Program, corpus: true})
 	inputs = append(inputs, input{name: "corpus/F10_two_results_one_argument/backtrace", dir: cdir, yaml: backYAML(false), back: true, replay: f10Program, corpus: true})
 
+	// fixed corpus: the stale call-site registration (orphaned call nodes of a pre-summarized caller)
+	if src, err := os.ReadFile(filepath.Join(lib.Root(), "corpus", "findings", "C17_stale_registration", "main.go")); err == nil {
+		sdir := lib.WorkDir(prop, "corpus_stale")
+		lib.WriteProgram(sdir, "vprog", map[string]string{"main.go": string(src)})
+		inputs = append(inputs, input{name: "corpus/C17_stale_registration", dir: sdir, yaml: taintYAML(false), replay: string(src), corpus: true})
+		inputs = append(inputs, input{name: "corpus/C17_stale_registration/backtrace", dir: sdir, yaml: backYAML(false), back: true, replay: string(src), corpus: true})
+	} else {
+		rep.Notes = append(rep.Notes, "corpus replay missing: C17_stale_registration")
+	}
+
 	// generated programs
 	// many small programs rather than few large ones: the oracle evaluates the (quadratic) Lean definition
 	nProg, nCases := 3, 36
@@ -615,6 +657,19 @@ func main() {
 		return
 	}
 	idx := map[*observer]int{}
+	conv := map[string]map[string]*[2]int{} // kind -> observation point -> (entries, graphs)
+	convAt := func(kind, point string) *[2]int {
+		if conv[kind] == nil {
+			conv[kind] = map[string]*[2]int{}
+		}
+		if conv[kind][point] == nil {
+			conv[kind][point] = &[2]int{}
+		}
+		return conv[kind][point]
+	}
+	convFirst := map[string]string{}
+	var orphanLog strings.Builder
+	convTotal := map[string]int{}
 	for k, line := range lines {
 		o, in := obs[k], obsInput[k]
 		snapNo := idx[o]
@@ -666,10 +721,86 @@ func main() {
 				rep.Fail("inv-index-single:"+in.name, "index inconsistency on a graph whose pairs carry a single index (inv_index_partial broken)", content, true)
 			}
 		}
+		// the converse registrations (Props/C17Conv.lean): stale = the registered node does not point back
+		// (staleSite is part of inv), orphan = the registered node is no longer a node of its own summary
+		for _, c := range []string{"staleRef", "staleSite", "orphanRef", "orphanSite"} {
+			n, _ := strconv.Atoi(get(c))
+			convAt(c, point)[0] += n
+			if n > 0 {
+				convAt(c, point)[1]++
+				rep.Count("graphs-with-" + c)
+				if convFirst[c] == "" {
+					convFirst[c] = id + ": " + f[len(f)-1]
+				}
+			}
+		}
+		if n, _ := strconv.Atoi(get("staleRef")); n > 0 || get("convc") == "0" {
+			// the state of conv_not_invariant / conv_witness on the real tool: backward sees a closure link forward does not
+			rep.Fail("converse:stale-referring-make-closure:"+in.name, fmt.Sprintf("ReferringMakeClosures has %d entr(y/ies) whose closure node does not point back (ClosureSummary is another summary or nil) at %s: %s", n, id, f[len(f)-1]), content, false)
+		}
+		if n, _ := strconv.Atoi(get("staleSite")); n > 0 {
+			rep.Fail("converse:stale-callsite:"+in.name, fmt.Sprintf("Callsites has %d entr(y/ies) whose call node is not linked to the summary at %s: %s", n, id, f[len(f)-1]), content, false)
+		}
+		if n, _ := strconv.Atoi(get("orphanRef")); n > 0 {
+			rep.Fail("converse:orphan-referring-make-closure:"+in.name, fmt.Sprintf("ReferringMakeClosures has %d entr(y/ies) whose closure node is no longer in CreatedClosures of its summary at %s: %s", n, id, f[len(f)-1]), content, false)
+		}
+		if n, _ := strconv.Atoi(get("orphanSite")); n > 0 {
+			desc := ""
+			notPre := 0
+			if snapNo < len(o.orphans) {
+				for _, x := range o.orphans[snapNo] {
+					if !strings.Contains(x, "(pre-summarized=true ") {
+						notPre++
+					}
+				}
+				if len(o.orphans[snapNo]) > 0 {
+					desc = o.orphans[snapNo][0]
+				}
+			}
+			oc := []byte(fmt.Sprintf("%s\norphaned registrations:\n%s\n", content, strings.Join(o.orphans[snapNo], "\n")))
+			if notPre == 0 && len(o.orphans[snapNo]) == n {
+				// known shape: call nodes created from the body of a function with a predefined summary, linked, then
+				// dropped from Callees by PopulateGraphFromSummary
+				rep.Fail("converse:orphan-callsite:pre-summarized-caller", fmt.Sprintf("%d call node(s) registered in their callee's Callsites are no longer in Callees of their own (pre-summarized) summary at %s, e.g. %s", n, id, desc), oc, false)
+			} else {
+				rep.Fail("converse:orphan-callsite:"+in.name, fmt.Sprintf("%d call node(s) registered in their callee's Callsites are no longer in Callees of their own summary, %d of them outside the pre-summarized shape, at %s", n, notPre, id), oc, false)
+			}
+		}
+		if snapNo < len(o.orphans) && len(o.orphans[snapNo]) > 0 {
+			fmt.Fprintf(&orphanLog, "== %s\n%s\n", id, strings.Join(o.orphans[snapNo], "\n"))
+		}
+		nr, _ := strconv.Atoi(get("nReferring"))
+		ns, _ := strconv.Atoi(get("nCallsite"))
+		convTotal["referring-entries"] += nr
+		convTotal["callsite-entries"] += ns
 		if k%17 == 3 {
 			rep.Sample(map[string]any{"graph": id, "oracle": strings.Join(f[2:16], " ")})
 		}
 	}
+	perPoint := func(kinds ...string) map[string]any {
+		out := map[string]any{}
+		total := 0
+		for _, kind := range kinds {
+			for point, c := range conv[kind] {
+				p := strings.TrimRight(point, "0123456789-")
+				m, _ := out[p].(map[string]int)
+				if m == nil {
+					m = map[string]int{}
+					out[p] = m
+				}
+				m[kind+"-entries"] += c[0]
+				m[kind+"-graphs"] += c[1]
+				total += c[0]
+			}
+		}
+		out["total"] = total
+		return out
+	}
+	os.WriteFile(filepath.Join(work, "orphans.txt"), []byte(orphanLog.String()), 0o644)
+	rep.Extra["closure_converse_violations"] = perPoint("staleRef", "orphanRef")
+	rep.Extra["callsite_converse_violations"] = perPoint("staleSite", "orphanSite")
+	rep.Extra["converse_entries_checked"] = convTotal
+	rep.Extra["converse_first_examples"] = convFirst
 	rep.Extra["inputs"] = len(inputs)
 	rep.Extra["graphs"] = len(obs)
 	rep.Finish()
